@@ -4,6 +4,8 @@ import re
 
 import z3
 
+from .types import AND, OR
+
 try:
     from re import _parser as sre_parse, _constants as sre_constants   # Python >= 3.11
 except ImportError:  # pragma: no cover
@@ -124,7 +126,7 @@ class Rx:
         if self.end == "Z":
             return z3.InRe(s, core)
         if self.end == "dollar":
-            return z3.Or(z3.InRe(s, core), z3.InRe(s, z3.Concat(core, nl)))
+            return OR(z3.InRe(s, core), z3.InRe(s, z3.Concat(core, nl)))
         return z3.InRe(s, z3.Concat(core, z3.Full(z3.ReSort(z3.StringSort()))))
 
     def fullmatch_lang(self):
@@ -148,10 +150,10 @@ class Rx:
         if self.end == "Z":
             tail_ok = tail == z3.StringVal("")
         elif self.end == "dollar":
-            tail_ok = z3.Or(tail == z3.StringVal(""), tail == z3.StringVal("\n"))
+            tail_ok = OR(tail == z3.StringVal(""), tail == z3.StringVal("\n"))
         else:
             tail_ok = z3.BoolVal(True)
-        eng.assume(z3.Implies(self.matches(s), z3.And(s == cat, tail_ok, *[z3.InRe(x, r) for x, r in parts])))
+        eng.assume(z3.Implies(self.matches(s), AND(s == cat, tail_ok, *[z3.InRe(x, r) for x, r in parts])))
         return names
 
 
